@@ -25,7 +25,7 @@ ENGINES["ana"] = {"path": "harness/src/macho.rs (run_ana)",
     "kind": "the four instruction analysers through the verif_hooks::analyze_* hooks on generated functions (every pc), structured words from every instruction class the analysers distinguish (with boundary immediates and register fields) and byte soup, at aligned and unaligned pcs incl. pc = len; compared with the Lean model (anaX64/anaA64) byte for byte"}
 
 ENGINES["mut"] = {"path": "harness/src/mutate.rs",
-    "kind": "hostile data: well-formed modules of every format (generated DWARF in three presentations, Mach-O compact unwind with text and __eh_frame, PE .pdata/.xdata/.text, no data; plus the ELF and Mach-O binaries under /repo/fixtures read with the object crate) are reduced to raw section tables and corrupted - bit flips, truncation, u16/u32 field edits with boundary values, random runs, splices from other sections, appended garbage, noise, swapped/missing sections, reversed/empty/shifted/oversized/below-base ranges, changed image base, absurd module ranges and base addresses; one case in ten stays well-formed - then Module::new, add_module, unwind_frame and iter_frames run under catch_unwind with overflow checks (both allocation policies); a panic located in /repo/src is a violation, panics in dependencies are counted and reported as notes; the case in flight is on disk so that a hang is reported with its input"}
+    "kind": "hostile data: well-formed modules of every format (generated DWARF in three presentations, Mach-O compact unwind with text and __eh_frame, PE .pdata/.xdata/.text, no data; plus the ELF and Mach-O binaries under /repo/fixtures read with the object crate) are reduced to raw section tables and corrupted - bit flips, truncation, u16/u32 field edits with boundary values, random runs, splices from other sections, appended garbage, noise, swapped/missing sections, reversed/empty/shifted/oversized/below-base ranges, changed image base, absurd module ranges and base addresses; one case in ten stays well-formed - then Module::new, add_module, unwind_frame and iter_frames run under catch_unwind with overflow checks (both allocation policies); a panic located anywhere but inside the three third-party parsers (gimli, macho-unwind-info, pe-unwind-info) is a violation - that includes panics raised by utility crates or core on behalf of framehop's code, e.g. a capacity panic of arrayvec - panics inside the parsers are counted and reported as notes; the case in flight is on disk so that a hang is reported with its input"}
 
 ENGINES["alloc"] = {"path": "harness/src/alloc.rs",
     "kind": "counting global allocator armed exactly around each unwind_frame / iterator next made with MustNotAllocateDuringUnwind (zero alloc/dealloc/realloc events demanded; the allocating call chain is named from a backtrace) and, on the same module and thread state, comparison with MayAllocateDuringUnwind (result, registers, cache statistics); modules of every format: three DWARF presentations with random rows incl. unevaluable and evaluable expression CFAs and DW_CFA_(val_)expression register rules, Mach-O compact unwind (all opcode kinds, text present/absent, DWARF-deferred), PE (prolog/body/epilog addresses, chained infos), no data; every probe optionally repeated (cache hit)"}
@@ -159,7 +159,7 @@ PROPS = {
     },
     "C14": {
         "lean": ["FH.Props.C14"],
-        "engines": ["mut", "ana", "macho"],
+        "engines": ["mut", "ana", "macho", "pe"],
         "level_text": "Theorems over arbitrary module data (tables, opcodes, ranges, text bytes, FDEs, rows all universally quantified - corrupt data included): the instruction analysers are total when the offset lies within the bytes; the compact-unwind dispatch always hands them a slice containing the offset (arbitrary unsorted/overlapping/inverted tables and text ranges), hence never panics; the plan is never `panic` for any module, address and frame kind on both architectures. Partial: the byte-level parsers are third-party and framehop's glue around them (slicing, index construction, range arithmetic) is not modelled at byte level; that part is decided by the mut engine (byte-level corruption of generated and real sections, catch_unwind, overflow checks, panic location attribution, in-flight case file for hangs).",
         "level_note": _NOTE + " Panics inside gimli / macho-unwind-info / pe-unwind-info on corrupt bytes are outside the property's letter (framehop's own code) and are reported as NOTE lines with a replay, not as violations.",
         "statement": "No reachable panic outcome in the model's format-specific code for any module data; byte-level hostile inputs by differential-free fault injection on the implementation.",
